@@ -22,6 +22,9 @@ CONSTANTS NReq,            \* requests per behaviour
           FixChain,        \* flush chains are linked through a field of their own (fix 9a)
           FixBound,        \* the fid table's own reference is explicit (bind/unbind); close drops it instead of destroying (fix 12c)
           FixPending,      \* a fid is invisible to FidGet from FidNew until the creating request succeeded (bind)
+          FixQueued,       \* flush of a request still queued behind older requests of its tag only flags it (it is answered,
+                           \* without a reply, when its turn comes) instead of unlinking it out of turn
+          FixAppend,       \* Respond appends its flush waiters to those of its same-tag successor (as coded: restarts a Tflush)
           FixClose,        \* Respond does not block on reqout after close; close drops table refs (fix 12)
           SharedTags,      \* client may reuse an outstanding tag for non-flush requests
           HasFlushOp,      \* implementation provides FlushOp
@@ -50,7 +53,7 @@ vars == <<nreq, rq, reqs, wpc, stack, act, fidref, spc, scur, outq, wire, impl,
 NullRq == [kind |-> "none", tag |-> 0, fid |-> 0, newfid |-> 0, oldtag |-> 0,
            flush |-> FALSE, work |-> FALSE, resp |-> FALSE, saved |-> FALSE,
            next |-> 0, prev |-> 0, flushreq |-> 0, fnext |-> 0,
-           hfid |-> 0, hnew |-> 0, tgt |-> 0, rc |-> 0]
+           hfid |-> 0, hnew |-> 0, tgt |-> 0, rc |-> 0, tq |-> FALSE]
 NullAct == [st |-> "none", oldflush |-> FALSE, nextreq |-> 0, cur |-> 0]
 
 Init ==
@@ -119,6 +122,7 @@ Recv(kind, tag, fid, newfid, oldtag) ==
      ELSE IF kind = "Flush"
        THEN /\ ~TagBusy(tag) /\ oldtag # tag /\ fid = NoFid /\ newfid = NoFid
             /\ TagBusy(oldtag)                             \* flush an outstanding tag
+            /\ (NoTag # 0 => oldtag # NoTag)               \* nobody flushes a Tversion
        ELSE /\ oldtag = 0 /\ fid \in Fids
             /\ (kind = "Walk") => newfid \in Fids
             /\ (kind # "Walk") => newfid = NoFid
@@ -241,9 +245,10 @@ WDispatch(r) ==
             /\ fc' = Packed(fc, r, "RFlush")
             /\ rq' = IF tgt # 0
                        THEN IF FixChain
-                              THEN [rq EXCEPT ![r].fnext = rq[tgt].flushreq, ![r].tgt = tgt, ![tgt].flushreq = r]
+                              THEN [rq EXCEPT ![r].fnext = rq[tgt].flushreq, ![r].tgt = tgt, ![tgt].flushreq = r,
+                                              ![r].tq = (rq[tgt].next # 0)]
                               ELSE [rq EXCEPT ![r].flushreq = rq[tgt].flushreq, ![r].tgt = tgt,
-                                              ![tgt].flushreq = r]
+                                              ![tgt].flushreq = r, ![r].tq = (rq[tgt].next # 0)]
                        ELSE rq
             /\ wpc' = [wpc EXCEPT ![r] = "flush2"]
             /\ UNCHANGED <<stack, act, fidref, impl, badcall, calls, creator, fdir, bound, made>>
@@ -266,7 +271,9 @@ WFlush2(r) ==                  \* flush_status -> flush_act (or Respond at once 
 
 WFlush3Cancel(r) ==            \* flush_act: r.Respond() on the not-yet-started target
   /\ wpc[r] = "flush3c" /\ AtBase(r)
-  /\ RespEnter(r, rq[r].tgt, rq)
+  /\ IF FixQueued /\ rq[r].tq
+       THEN UNCHANGED <<rq, stack, act>>     \* queued behind older requests of its tag: its own process() answers it in turn
+       ELSE RespEnter(r, rq[r].tgt, rq)
   /\ wpc' = [wpc EXCEPT ![r] = "end"]
   /\ UNCHANGED <<nreq, reqs, fidref, spc, scur, outq, wire, impl, fc, pool, nfc, cstate, cpc, fdir, sstop, bound>>
   /\ UNCHANGED ghosts
@@ -344,16 +351,23 @@ WEnd(r) ==                     \* proc_end: clear work, remember that no answer 
 (* ---- Respond activation of request t, run by thread g ---- *)
 Running(g, t, st) == stack[g] # <<>> /\ Top(g) = t /\ act[t].st = st
 
+RECURSIVE ChainTail(_)
+ChainTail(f) == IF rq[f].fnext = 0 THEN f ELSE ChainTail(rq[f].fnext)
 RUnlink(g, t) ==               \* the conn.Lock section of Respond, as coded
   /\ Running(g, t, "unlink")
   /\ LET nx == rq[t].prev IN
      IF nx # 0
        THEN LET hasOwn == rq[nx].flushreq # 0
-                moved  == rq[t].flushreq # 0 IN
-            /\ rq' = [rq EXCEPT ![nx].next = 0,
-                                ![nx].flushreq = IF moved /\ ~hasOwn THEN rq[t].flushreq ELSE @]
+                moved  == rq[t].flushreq # 0
+                append == FixAppend /\ moved /\ hasOwn
+                tl == IF append THEN ChainTail(rq[nx].flushreq) ELSE 0 IN
+            /\ rq' = [x \in DOMAIN rq |->
+                        IF x = nx THEN [rq[x] EXCEPT !.next = 0, !.flushreq = IF moved /\ ~hasOwn THEN rq[t].flushreq ELSE @,
+                                                       !.fnext = IF append /\ tl = nx THEN rq[t].flushreq ELSE @]
+                        ELSE IF append /\ x = tl THEN [rq[x] EXCEPT !.fnext = rq[t].flushreq]
+                        ELSE rq[x]]
             /\ act' = [act EXCEPT ![t].st = IF FixOrder THEN "next" ELSE "post", ![t].cur = 0,
-                                  ![t].nextreq = IF moved /\ hasOwn THEN rq[t].flushreq ELSE nx]
+                                  ![t].nextreq = IF moved /\ hasOwn /\ ~FixAppend THEN rq[t].flushreq ELSE nx]
             /\ UNCHANGED reqs
        ELSE /\ reqs' = [reqs EXCEPT ![rq[t].tag] = 0]
             /\ act' = [act EXCEPT ![t].st = IF FixOrder THEN "next" ELSE "post", ![t].cur = rq[t].flushreq, ![t].nextreq = 0]
